@@ -3,6 +3,8 @@
    (and in Theory/RealClosing.v); the theorems are about their rational cores. *)
 From Coq Require Import ZArith QArith List Bool Arith Permutation.
 From SKC Require Import Base.QBool Base.QList Model.Transform Model.Weights Theory.Transform Theory.Weights.
+From Coq Require Reals.
+From SKC Require Theory.RealClosing.
 Import ListNotations.
 
 Theorem C13_equal_weighter : forall base m,
@@ -61,6 +63,25 @@ Theorem C13_executed_cores_are_the_cores : forall v u,
   pvar_r v == pvar v /\ svar_r v == svar v /\ cov_r v u == cov v u.
 Proof. exact (fun v u => conj (pvar_r_correct v) (conj (svar_r_correct v) (cov_r_correct v u))). Qed.
 Print Assumptions C13_executed_cores_are_the_cores.
+
+(* EntropyWeighter, over the reals: the Shannon entropy of a criterion's probability column is at most ln n
+   (Gibbs' inequality; 0 ln 0 = 0 as scipy.stats.entropy has it), so each diversity 1 - H / ln n lies in
+   [0, 1] and the normalised weights are non-negative *)
+Theorem C13_entropy_at_most_ln_n : forall l : list Rdefinitions.R,
+  l <> [] -> Forall (fun p => Rdefinitions.Rle (Rdefinitions.IZR 0) p) l ->
+  RealClosing.rsum l = Rdefinitions.IZR 1 ->
+  Rdefinitions.Rle (Rdefinitions.Ropp (RealClosing.plogp l)) (Rpower.ln (Raxioms.INR (length l))).
+Proof. exact RealClosing.entropy_le_ln_n. Qed.
+Print Assumptions C13_entropy_at_most_ln_n.
+
+Theorem C13_entropy_diversity_in_unit_interval : forall l : list Rdefinitions.R,
+  (2 <= length l)%nat -> Forall (fun p => Rdefinitions.Rle (Rdefinitions.IZR 0) p) l ->
+  Forall (fun p => Rdefinitions.Rle p (Rdefinitions.IZR 1)) l -> RealClosing.rsum l = Rdefinitions.IZR 1 ->
+  let d := Rdefinitions.Rplus (Rdefinitions.IZR 1)
+             (Rdefinitions.Rdiv (RealClosing.plogp l) (Rpower.ln (Raxioms.INR (length l)))) in
+  Rdefinitions.Rle (Rdefinitions.IZR 0) d /\ Rdefinitions.Rle d (Rdefinitions.IZR 1).
+Proof. exact RealClosing.entropy_diversity_bounds. Qed.
+Print Assumptions C13_entropy_diversity_in_unit_interval.
 
 Example C13_example :
   svar [1; 2; 3] == 1 /\ pvar [1; 2; 3] == 2 # 3 /\ cov [1; 2; 3] [3; 2; 1] == - (2 # 3) /\
